@@ -527,6 +527,9 @@ pub struct Hostile {
     pub ctl_den: u64,
     pub spurious: bool,
     pub multi_release: bool,
+    /// a lagging observer: now and then the stream is NOT polled although it was woken, while the
+    /// environment keeps completing operations / requests keep arriving
+    pub lag: bool,
 }
 
 /// Hostile scheduler: random gate order, several releases before one poll, spurious polls,
@@ -536,8 +539,17 @@ pub fn run_hostile(case: &FlowCase, rng: &mut Rng, h: &Hostile) -> CaseRun {
     let mut d = Driver::new(&w, &case.setup);
     d.max_steps = case.max_steps;
     let mut budget = h.ctl_budget;
+    let mut lagged = 0;
     let end = loop {
-        d.settle();
+        let gates_now = d.pending_gates();
+        if h.lag && lagged < 3 && !gates_now.is_empty() && rng.chance(1, 6) {
+            // do not poll this round
+            lagged += 1;
+            d.sig.str("lag");
+        } else {
+            lagged = 0;
+            d.settle();
+        }
         if d.panicked.is_some() {
             break RunEnd::Panicked;
         }
